@@ -45,11 +45,17 @@ pub fn run_flood(run: &mut Run, prof: u8, count: u32, distinct_ssrc: bool) {
         pkt.extend_from_slice(&[0u8; 24]);
         bytes_in += pkt.len() as u64;
         if let Ok(sp) = SrtpPacket::parse(BytesMut::from(&pkt[..])) { let _ = p.rx.unprotect_rtp(sp); }
+        // the same forged SSRC as an SRTCP packet (RR header + index + tag bytes)
+        let mut rtcp = vec![0x80u8, 201, 0, 1];
+        rtcp.extend_from_slice(&(if distinct_ssrc { 0x5800_0000 + k } else { 0x5800_0000 }).to_be_bytes());
+        rtcp.extend_from_slice(&[0u8; 20]);
+        bytes_in += rtcp.len() as u64;
+        let _ = p.rx.unprotect_rtcp(&mut rtcp);
     }
     let retained = super::alloc_retained().max(0) as u64;
     run.count_n(&format!("srtpflood:retained_per_input_byte_x100:{prof}:{}", distinct_ssrc as u8), retained * 100 / bytes_in.max(1));
     if retained > 16 * bytes_in + 65536 {
-        run.fail("retain:SrtpSession::unprotect_rtp", &case, &format!("{retained} bytes retained after {count} unauthenticated packets ({bytes_in} bytes received)"));
+        run.fail("retain:SrtpSession::unprotect(forged-ssrc)", &case, &format!("{retained} bytes retained after {count} unauthenticated packets ({bytes_in} bytes received)"));
     }
     run.case("srtpflood", &format!("{prof} {count} {}", distinct_ssrc as u8), "noncompared", true);
     drop(p);
@@ -82,7 +88,7 @@ pub fn run_flood_auth(run: &mut Run, prof: u8, count: u32) {
 }
 
 pub fn special(run: &mut Run, rng: &mut Rng, thorough: bool) {
-    for prof in 0..4u8 { run_flood(run, prof, 2000, false); run_flood(run, prof, 2000, true); run_flood_auth(run, prof, 2000); }
+    for prof in 0..4u8 { run_flood(run, prof, 2000, false); run_flood(run, prof, 2000, true); run_flood_auth(run, prof, 20_000); }
     for i in 0..4u8 {
         let mut p = pair(i);
         for rtcp in [false, true] { run_one(run, &mut p, rtcp, &[], false); for a in (0..=255u8).step_by(3) { run_one(run, &mut p, rtcp, &[a], false); } }
@@ -99,7 +105,10 @@ pub fn special(run: &mut Run, rng: &mut Rng, thorough: bool) {
                 for m in super::mutations(&out, rng, 4) { run_one(run, &mut p, false, &m, true); }
             }
             // genuine SRTCP
-            let mut c = marshal_rtcp_packets(&[super::rtp::gen_rtcp_packet(rng)]).unwrap_or_default();
+            let mut c = { let p = super::rtp::gen_rtcp_packet(rng); crate::catch(move || marshal_rtcp_packets(&[p]).unwrap_or_default()).unwrap_or_default() };
+            // pin the sender SSRC to the same small set as the RTP side: the per-call oracle is about one packet, the
+            // growth of the context table with new authenticated SSRCs is measured separately (`srtpfloodauth`)
+            if c.len() >= 8 { let ss = 0x1000u32 + rng.below(3) as u32; c[4..8].copy_from_slice(&ss.to_be_bytes()); }
             if c.len() >= 8 && p.tx.protect_rtcp(&mut c).is_ok() {
                 run_one(run, &mut p, true, &c, true);
                 let k = rng.below(c.len() as u64 + 1) as usize; run_one(run, &mut p, true, &c[..k], true);
